@@ -33,6 +33,7 @@ type Step struct {
 	Parallel bool   `json:"parallel,omitempty"`
 	Steps    []Step `json:"steps,omitempty"`
 	Tag      string `json:"tag,omitempty"` // free label echoed in the result
+	Suite    bool   `json:"suite,omitempty"` // sub: the subtest function is declared in the non-test file suite.go
 }
 
 type Node struct {
